@@ -31,7 +31,6 @@ func RepoDir() string { return modelscan.RepoDir() }
 // GeneratedFileName is the file name the generator writes.
 const GeneratedFileName = modelscan.GeneratedFileName
 
-
 // Entry is the compiled handle on one generated model (static references; produced by
 // cmd/mkregistry into registry_gen.go).
 type Entry struct {
